@@ -53,6 +53,12 @@ structure TxIn where
   startNF : Bool
   endNF   : Bool
   sec     : List Nat            -- starts of annotated Sec codons (transcript coordinates)
+  /-- fusion / circRNA backbones: a non-coding backbone may only open an ORF at an ATG starting
+  at or before this position (the start of the acceptor part) -/
+  orfLimit : Option Nat := none
+  /-- the backbone is a fusion transcript (the mRNA_end_NF rule on the last annotated codon of the
+  donor does not apply to its records) -/
+  isFusion : Bool := false
   deriving Repr, Inhabited
 
 structure Cfg where
@@ -81,7 +87,7 @@ def usable (t : TxIn) (v : Var) : Option Var :=
   if v.start < startIndex t then none
   else
     let txEnd := if t.coding then t.orfEnd else t.seq.length
-    if t.endNF && v.start < txEnd && txEnd - 3 < v.stop then none
+    if t.endNF && !t.isFusion && v.start < txEnd && txEnd - 3 < v.stop then none
     else some v
 
 def sameMergeCls (a b : Var) : Bool := a.cls != .other && a.cls == b.cls
@@ -157,7 +163,10 @@ def startCodons (seq : List Char) : List Nat :=
 /-- the reading frames the statement allows: the known ORF for a coding transcript,
 every ATG otherwise -/
 def orfStarts (t : TxIn) (seq : List Char) : List Nat :=
-  if t.coding then [t.orfStart] else startCodons seq
+  if t.coding then [t.orfStart]
+  else match t.orfLimit with
+    | none => startCodons seq
+    | some lim => (startCodons seq).filter (· ≤ lim)
 
 /-! ### digestion products with the documented N-terminal / alt-translation forms -/
 
@@ -229,6 +238,37 @@ def callVariant (g : Cfg) (t : TxIn) (vs : List Var) : List Pep :=
   let deny := referencePeptides g t
   ((haplotypes t vs).flatMap fun h =>
       peptidesOf g t (applyHap t.seq h) (secAfter t.sec h) t.endNF).filter fun p =>
+    !deny.contains p && !g.canonical.contains p
+
+/-- S: the set for a fusion / circRNA BACKBONE `t` (already assembled from the breakpoints or
+the fragments): the backbone itself is the variant, so the empty combination of small records
+counts; `deny` = the products of the unmodified donor / host transcript. -/
+def callBackbone (g : Cfg) (t : TxIn) (vs : List Var) (deny : List Pep) : List Pep :=
+  (([] :: haplotypes t vs).flatMap fun h =>
+      peptidesOf g t (applyHap t.seq h) (secAfter t.sec h) t.endNF).filter fun p =>
+    !deny.contains p && !g.canonical.contains p
+
+/-- S: the set for a circRNA: `circSeq` = the fragments concatenated in transcript order; a
+combination of the small records inside the fragments is applied to the ONE molecule, which
+is then read around the circle (four copies suffice for peptides of bounded length); every
+ATG opens a frame; only peptides closed by a stop codon count. -/
+def callCirc (g : Cfg) (circSeq : List Char) (vs : List Var) (deny : List Pep) : List Pep :=
+  let t : TxIn := { seq := circSeq, coding := false, orfStart := 0, orfEnd := 0, startNF := false,
+                    endNF := true, sec := [] }
+  (([] :: haplotypes t vs).flatMap fun h =>
+      let m := applyHap circSeq h
+      peptidesOf { g with sect := false } t (m ++ m ++ m ++ m) [] true).filter fun p =>
+    !deny.contains p && !g.canonical.contains p
+
+/-- NOT the definition — used only to classify a discrepancy: the set obtained when each of
+the (three) passes around the circle may carry its own combination of the records, which is
+what a graph with independent bubbles per copy yields -/
+def callCircMixed (g : Cfg) (circSeq : List Char) (vs : List Var) (deny : List Pep) : List Pep :=
+  let t : TxIn := { seq := circSeq, coding := false, orfStart := 0, orfEnd := 0, startNF := false,
+                    endNF := true, sec := [] }
+  let copies := ([] :: haplotypes t vs).map (applyHap circSeq)
+  (copies.flatMap fun a => copies.flatMap fun b => copies.flatMap fun c =>
+      peptidesOf { g with sect := false } t (a ++ b ++ c) [] true).filter fun p =>
     !deny.contains p && !g.canonical.contains p
 
 /-- ascending, non-overlapping; adjacency only between two records of one merge class and
